@@ -354,11 +354,8 @@ def eval_no_overhang(case):
     ref = case['ref']
     L = len(ref)
     fa = os.path.join(scratch_dir(), 'c09_%d.fa' % os.getpid())
-    with open(fa, 'w') as f:
-        f.write('>chrT\n%s\n>chrM\n%s\n' % (ref, revcomp(ref)))
-    if os.path.exists(fa + '.fai'):
-        os.remove(fa + '.fai')
-    pysam.faidx(fa)
+    from ..common.fragsim import write_fasta
+    write_fasta(fa, [('chrT', ref), ('chrM', revcomp(ref))])
     h = header([('chrT', L), ('chrM', L)])
     hit = False
     try:
